@@ -3,6 +3,7 @@ package trav
 import (
 	"fmt"
 	"io"
+	"strconv"
 
 	"github.com/ipld/go-ipld-prime/datamodel"
 	"github.com/ipld/go-ipld-prime/linking"
@@ -164,13 +165,13 @@ func RunWalk(b *Built, root datamodel.Node, s selector.Selector, o WalkOpts) Lib
 		if o.Matching {
 			err = prog.WalkMatching(root, s, func(p traversal.Progress, n datamodel.Node) error {
 				v, _ := ref.Read1(n)
-				out.Visits = append(out.Visits, Visit{p.Path.String(), 'm', v})
+				out.Visits = append(out.Visits, Visit{p.Path.String(), 'm', v, p.Path.Segments()})
 				return nil
 			})
 		} else {
 			err = prog.WalkAdv(root, s, func(p traversal.Progress, n datamodel.Node, r traversal.VisitReason) error {
 				v, _ := ref.Read1(n)
-				out.Visits = append(out.Visits, Visit{p.Path.String(), byte(r), v})
+				out.Visits = append(out.Visits, Visit{p.Path.String(), byte(r), v, p.Path.Segments()})
 				return nil
 			})
 		}
@@ -267,4 +268,56 @@ func CutSets(tree ref.Val, maxCuts int, containersOnly bool) [][]int {
 		}
 	}
 	return out
+}
+
+// Config returns a traversal config over the built graph's link system.
+func (b *Built) Config() *traversal.Config {
+	return &traversal.Config{
+		LinkSystem: *b.LS,
+		LinkTargetNodePrototypeChooser: func(datamodel.Link, linking.LinkContext) (datamodel.NodePrototype, error) {
+			return basicnode.Prototype.Any, nil
+		},
+	}
+}
+
+// Resolve is the reference path resolver: maps by exact key, lists by canonical decimal index in
+// range, links followed (through the graph's blocks) after every step. status: "ok", "missing"
+// (a segment does not exist / scalar reached early / block missing), "unspecified" (a non-canonical
+// numeral applied to a list).
+func Resolve(g Graph, segs []string) (ref.Val, string) {
+	n := g.Root
+	for _, seg := range segs {
+		switch n.K {
+		case ref.KMap:
+			c, ok := lookupChild(n, seg)
+			if !ok {
+				return ref.Val{}, "missing"
+			}
+			n = c
+		case ref.KList:
+			c, ok := lookupChild(n, seg)
+			if !ok {
+				if _, err := strconv.ParseInt(seg, 10, 64); err == nil && strconv.Itoa(atoiSafe(seg)) != seg {
+					return ref.Val{}, "unspecified"
+				}
+				return ref.Val{}, "missing"
+			}
+			n = c
+		default:
+			return ref.Val{}, "missing"
+		}
+		for n.K == ref.KLink {
+			blk, ok := g.Blocks[n.S]
+			if !ok {
+				return ref.Val{}, "missing"
+			}
+			n = blk
+		}
+	}
+	return n, "ok"
+}
+
+func atoiSafe(s string) int {
+	i, _ := strconv.Atoi(s)
+	return i
 }
